@@ -593,7 +593,7 @@ class InvGaussDist(Distribution):
         if weights is None:
             weights = np.ones_like(mu)
         gamma = weights / self.scale
-        return sp.stats.invgauss.logpdf(y, mu, scale=1.0 / gamma)
+        return sp.stats.invgauss.logpdf(y, mu / gamma, scale=gamma)
 
     @divide_weights
     def V(self, mu):
@@ -653,7 +653,7 @@ class InvGaussDist(Distribution):
         -------
         random_samples : np.array of same shape as mu
         """
-        return np.random.wald(mean=mu, scale=self.scale, size=None)
+        return np.random.wald(mean=mu, scale=1.0 / self.scale, size=None)
 
 
 DISTRIBUTIONS = {
